@@ -136,6 +136,8 @@ pub fn run(run: &mut Run) {
     }
     let (lanes, cases) = if run.thorough() { (16, 20000) } else { (16, 4000) };
     run_tapes(run, lanes, cases, 1200, &check);
+    // thorough only: coverage-guided search over generator tapes with the same oracle
+    crate::fuzzstage::fuzz_tapes(run, 1200, 120);
 }
 
 pub fn replay(case: &serde_json::Value) -> CheckResult {
